@@ -145,6 +145,7 @@ struct CrashId
 {
   std::string kind; // asan-<bug> | ubsan-<what> | assert | terminate-<exception> | signal-<n> | exit-<n>
   std::string func; // first /repo frame (function, no arguments) or "?"
+  std::string loader; // innermost reader frame below it (X::_deserialize, createFromNF, readGridFromFile, ...) or ""
   std::string excerpt;
 };
 
@@ -175,6 +176,14 @@ inline bool boringFrame(const std::string& fn, const std::string& file)
 {
   if (fn.find("operator[]") != std::string::npos || fn.find("operator()") != std::string::npos) return true;
   if (file.find("/Basic/VectorT.hpp") != std::string::npos || file.find("/Basic/VectorNumT.hpp") != std::string::npos) return true;
+  return false;
+}
+
+inline bool loaderFrame(const std::string& fn)
+{
+  for (const char* pat : {"::_deserialize", "::deserialize", "createFromNF", "readGridFromFile", "readFromFile", "createFromCSV",
+                          "resetFromCSV", "csv_table_read", "::_fileOpenRead"})
+    if (fn.find(pat) != std::string::npos) return true;
   return false;
 }
 
@@ -318,7 +327,11 @@ inline CrashId crashIdentity(const ChildOutcome& o, const std::string& exe)
   if (!raw)
   {
     for (auto& f : fr)
-      if (repoFile(f.file) && !boringFrame(f.fn, f.file)) { id.func = stripFn(f.fn); break; }
+    {
+      if (!repoFile(f.file)) continue;
+      if (id.func == "?") { if (!boringFrame(f.fn, f.file)) id.func = stripFn(f.fn); if (id.func != "?" && loaderFrame(id.func)) break; continue; }
+      if (loaderFrame(f.fn)) { id.loader = stripFn(f.fn); break; }
+    }
   }
   else
   {
@@ -326,22 +339,37 @@ inline CrashId crashIdentity(const ChildOutcome& o, const std::string& exe)
     std::vector<std::string> offs;
     for (auto& f : fr) { sig += f.off + ","; offs.push_back(f.off.empty() ? "0" : f.off); }
     auto it = cache.find(sig);
-    if (it != cache.end()) id.func = it->second;
+    if (it != cache.end())
+    {
+      size_t at = it->second.find('@');
+      id.func   = it->second.substr(0, at);
+      if (at != std::string::npos) id.loader = it->second.substr(at + 1);
+    }
     else
     {
-      auto sym = symbolize(exe, offs);
+      auto sym  = symbolize(exe, offs);
+      bool done = false;
       for (auto& chain : sym)
       {
-        bool found = false;
         for (auto& pf : chain)
-          if (repoFile(pf.second) && !boringFrame(pf.first, pf.second)) { id.func = stripFn(pf.first); found = true; break; }
-        if (found) break;
+        {
+          if (!repoFile(pf.second)) continue;
+          if (id.func == "?")
+          {
+            if (!boringFrame(pf.first, pf.second)) id.func = stripFn(pf.first);
+            if (id.func != "?" && loaderFrame(id.func)) { done = true; break; }
+            continue;
+          }
+          if (loaderFrame(pf.first)) { id.loader = stripFn(pf.first); done = true; break; }
+        }
+        if (done) break;
       }
-      cache[sig] = id.func;
+      std::string val = id.func + (id.loader.empty() ? "" : "@" + id.loader);
+      cache[sig]      = val;
       if (!cacheFile.empty())
       {
         int fd = open(cacheFile.c_str(), O_WRONLY | O_CREAT | O_APPEND, 0644);
-        if (fd >= 0) { writeAll(fd, sig + "\t" + id.func + "\n"); close(fd); }
+        if (fd >= 0) { writeAll(fd, sig + "\t" + val + "\n"); close(fd); }
       }
     }
   }
